@@ -20,7 +20,7 @@ rel() {
   esac
 }
 bad=0
-for d in seeded/*/; do
+for d in seeded/${SEEDS:-*}/; do
   s=$(basename $d)
   p=$(echo $s | cut -c1-3)
   tmp=$(mktemp -d /tmp/seedmx.XXXXXX)
